@@ -470,15 +470,21 @@ if __name__ == "__main__":
             "eagerly instantiated true axioms (Pythagoras, signs on half periods, zeros, principal-range inverses, monotonicity, "
             "evenness/periodicity, special values), sqrt with y>=0 & y*y=x.  z3 proves unit norm, the coordinate round trip "
             "with RA in [0,2pi) including the poles and RA=0, chord<->angle mutually inverse and strictly increasing, chord <= 2 "
-            "(no exception), symmetry and zero-iff-equal of the distance, and that the mean is the normalised (weighted) vector sum.",
+            "(no exception), symmetry and zero-iff-equal of the distance, from_3d = direction of any non-zero vector, and that the mean is "
+            "the normalised (weighted) vector sum.  BINARY64 part (harnesses *.float64, vf/fpx.py): the same real distance(), "
+            "from_3d() and to_3d() are executed on IEEE FloatingPoint(11,53) terms (round-to-nearest-even + - * / sqrt, numpy's % for "
+            "|x| < m; libm sin/cos/arcsin/arccos uninterpreted with range/sign/endpoint facts) and cvc5 (QF_FP, z3 as fall-back) "
+            "decides over all bit patterns that distance() never raises for vectors to_3d can return (near-antipodal points), that "
+            "points differing by >= 2^-30 in a component never get distance 0 (tiny separations), that from_3d returns RA in "
+            "[0, 2pi) and that to_3d keeps a non-zero x-y projection off the poles.",
             assumptions=[
-                "REAL-ARITHMETIC exactness only: the explicit floating-point error bounds and the accuracy at tiny / near-antipodal "
-                "separations demanded by the property are NOT decided here (float + transcendental functions are outside the "
-                "technique); this part of C14 is not claimed",
-                "axioms about the transcendental functions are trusted (listed in vf/uf.py)",
-                "python's % on reals modelled on the window (-m, 2m)",
-                "mean: at most 2 points",
+                "numeric error bounds of the trigonometric steps themselves are NOT decided (libm cannot be encoded): accuracy of "
+                "to_3d, of arcsin near 1, and that the declination is never NaN (tried: both solvers time out)",
+                "real part: axioms about the transcendental functions are trusted (listed in vf/uf.py); python's % on reals modelled "
+                "on the window (-m, 2m); mean: at most 2 (thorough 3) points",
+                "binary64 part: the facts assumed of libm are listed per harness (checks/C14.py, vf/fpx.py); the threshold where sin "
+                "reaches 1 is measured on the platform libm at run time; to_3d output has squared norm within 2^-48 of 1",
             ],
-            trusted_base=["z3", "vf.uf trig / sqrt axioms"],
+            trusted_base=["z3", "cvc5 1.0 (QF_FP)", "vf.uf trig / sqrt axioms", "vf.fpx libm facts"],
         )
     )
